@@ -9,34 +9,33 @@ use std::sync::Arc;
 async fn main() {
     let schema = Arc::new(Schema::new(vec![
         Field::new("id", DataType::Int64, false),
-        Field::new("x", DataType::Float32, true),
+        Field::new("x", DataType::UInt64, true),
+        Field::new("z", DataType::Int64, true),
     ]));
     let b = RecordBatch::try_new(
         schema.clone(),
-        vec![Arc::new(Int64Array::from(vec![0, 1, 2, 3, 4, 5])), Arc::new(Float32Array::from(vec![Some(0.0), Some(-0.0), Some(1.0), None, Some(f32::NAN), Some(10.0)]))],
+        vec![Arc::new(Int64Array::from(vec![0, 1, 2, 3, 4])), Arc::new(UInt64Array::from(vec![None, Some(0), Some(12), Some(5), Some(1099511627776)])),
+        Arc::new(Int64Array::from(vec![None, Some(0), Some(12), Some(5), Some(1099511627776)]))],
     )
     .unwrap();
     let ctx = SessionContext::new();
     ctx.register_batch("t", b.clone()).unwrap();
-    let ds = Dataset::write(RecordBatchIterator::new(vec![Ok(b)], schema.clone()), "memory://probe_f", None).await.unwrap();
+    let ds = Dataset::write(RecordBatchIterator::new(vec![Ok(b)], schema.clone()), "memory://probe_in2", None).await.unwrap();
     for f in [
-        "(x BETWEEN 0.0 AND 10.0) AND (x > 0.0)",
-        "x > 0.0",
-        "x >= 0.0",
-        "x = 0.0",
-        "x = -0.0",
-        "x > -0.0",
-        "x BETWEEN 0.0 AND 10.0",
-        "x IN (0.0, 5.0)",
-        "x IN (-0.0, 5.0, 6.0, 7.0)",
-        "x < 0.0",
+        "(x IN (1099511627776, 12, 0)) AND (NOT ((x IN (0, 9223372036854775807)) AND (id IS NOT NULL)))",
+        "(x IN (1099511627776, 12, 0)) AND (x NOT IN (0, 9223372036854775807))",
+        "(x IN (1099511627776, 12, 0)) AND (x NOT IN (0, 7))",
+        "(z IN (1099511627776, 12, 0)) AND (z NOT IN (0, 7))",
+        "(x IN (12, 0)) AND (x <> 0)",
+        "(x IN (12, 0, 5, 6)) AND (x NOT IN (0, 1, 2, 3))",
     ] {
         let df = ctx.sql(&format!("SELECT id FROM t WHERE {f}")).await.unwrap().collect().await.unwrap();
         let ids: Vec<i64> = df.iter().flat_map(|b| b.column(0).as_any().downcast_ref::<Int64Array>().unwrap().values().to_vec()).collect();
         let mut s = ds.scan();
         s.filter(f).unwrap();
+        let plan = s.explain_plan(false).await.unwrap();
         let out: Vec<RecordBatch> = s.try_into_stream().await.unwrap().try_collect().await.unwrap();
         let lids: Vec<i64> = out.iter().flat_map(|b| b.column(0).as_any().downcast_ref::<Int64Array>().unwrap().values().to_vec()).collect();
-        println!("{f:50} datafusion={ids:?} lance={lids:?}");
+        println!("{f}\n   datafusion-sql={ids:?} lance={lids:?}\n   {}", plan.lines().last().unwrap_or("").trim());
     }
 }
